@@ -14,7 +14,7 @@ pub const DEF: PropDef = PropDef {
     run,
     replay,
     level: "exploration",
-    rule: "model-based: a session sends K messages per direction (K=4 quick, 5 thorough), then a delivery schedule is executed; exhaustive part = ALL schedules up to length 5 (6 thorough) over the alphabet {Deliver(0..K-1), garbage, expected message into an undersized buffer, oversize message, set_receiving_nonce(message number 1)} in one direction (contains every permutation with drops and duplicates); random part = longer schedules over both directions that also use set_receiving_nonce(v) with v in sent indices, beyond, 2^64-1. Long runs: 600 (thorough 1500) messages written and delivered in order from several counter bases, each accepted exactly once, with duplicates / garbage / undersized buffers / truncated copies rejected in between. Sessions rotate over all ciphers, hashes, both backends and interactive/one-way patterns. Model: one integer rn per direction; Deliver(j) with an adequate buffer is accepted iff j == rn (payload equals message j, rn += 1), everything else is rejected; after EVERY step receiving_nonce() == rn and sending_nonce() == number of writes. Non-trivial = the schedule contains a rejected delivery that is followed later by an accepted one; distinct by (config, schedule)",
+    rule: "model-based: a session sends K messages per direction (K=4 quick, 5 thorough), then a delivery schedule is executed; exhaustive part = ALL schedules up to length 5 (6 thorough) over the alphabet {Deliver(0..K-1), garbage, expected message into an undersized buffer, oversize message, set_receiving_nonce(message number 1)} in one direction (contains every permutation with drops and duplicates); random part = longer schedules over both directions that also use set_receiving_nonce(v) with v in sent indices, beyond, 2^64-1, a sent index plus a multiple of 2^32, a sent index with one more bit set. Long runs: 600 (thorough 1500) messages written and delivered in order from several counter bases, each accepted exactly once, with duplicates / garbage / undersized buffers / truncated copies rejected in between. Sessions rotate over all ciphers, hashes, both backends and interactive/one-way patterns. Model: one integer rn per direction; Deliver(j) with an adequate buffer is accepted iff j == rn (payload equals message j, rn += 1), everything else is rejected; after EVERY step receiving_nonce() == rn and sending_nonce() == number of writes. Non-trivial = the schedule contains a rejected delivery that is followed later by an accepted one; distinct by (config, schedule)",
     technique: "model-based testing of delivery schedules: bounded-exhaustive enumeration + proptest random schedules with shrinking",
     assumptions: &[],
     panic_is_violation: false,
@@ -102,7 +102,8 @@ fn oracle(c: &Case, acc: &mut Acc) -> CaseResult {
             Op::Deliver(_, j) => {
                 let j = *j as usize % k;
                 let (payload, m) = &sent[d][j];
-                let mut buf = vec![0u8; payload.len() + 3];
+                // the capacity of the receiver's buffer varies: exact, a few spare bytes, a tag more, ample
+                let mut buf = vec![0u8; payload.len() + [3usize, 0, 1, 15, 16, 17, 64, 70000][(step + j + c.seed as usize) % 8]];
                 let res = r.read_message(m, &mut buf);
                 if c.base + j as u64 == rn[d] {
                     match res {
@@ -165,7 +166,9 @@ fn oracle(c: &Case, acc: &mut Acc) -> CaseResult {
             },
             Op::SetNonce(_, v) => {
                 // small values are meant relative to the base (message numbers)
-                let v = if *v < 16 { c.base.wrapping_add(*v) } else { *v };
+                // ... and so are values of the form m * 2^32 + j with small m, j: the receiver is put
+                // exactly m * 2^32 messages ahead of sent message j
+                let v = if *v < 16 || ((*v >> 32) < 4 && (*v & 0xffff_ffff) < 16) { c.base.wrapping_add(*v) } else { *v };
                 r.set_receiving_nonce(v);
                 rn[d] = v;
             },
@@ -362,7 +365,10 @@ pub fn run(ctx: &Ctx) {
                 1 => (any::<bool>(), prop_oneof![Just(1u8), Just(15u8), Just(16u8), Just(255u8), any::<u8>()]).prop_map(|(d, k)| Op::SmallBufBy(d, k)),
                 1 => (any::<bool>(), prop_oneof![4 => 0u16..16, 2 => Just(16u16), 1 => Just(17u16), 1 => Just(65535u16)]).prop_map(|(d, l)| Op::GarbageLen(d, l)),
                 1 => any::<bool>().prop_map(Op::Oversize),
-                2 => (any::<bool>(), prop_oneof![4 => 0u64..8, 1 => Just(u64::MAX), 1 => Just(u64::MAX - 1), 1 => any::<u64>()]).prop_map(|(d, v)| Op::SetNonce(d, v)),
+                2 => (any::<bool>(), prop_oneof![4 => 0u64..8, 1 => Just(u64::MAX), 1 => Just(u64::MAX - 1), 1 => any::<u64>(),
+                    // a sent message number plus a multiple of 2^32 / 2^56, or with one high bit set: the
+                    // receiver is then FAR from every sent message and must accept none of them
+                    2 => (0u64..8, 1u64..4).prop_map(|(j, m)| (m << 32) + j), 1 => (0u64..8, 0u32..64).prop_map(|(j, b)| (j | (1u64 << b)).max(16))]).prop_map(|(d, v)| Op::SetNonce(d, v)),
             ];
             (0usize..5, 0usize..24, any::<bool>(), prop_oneof![6 => 1u8..8, 1 => 8u8..16], prop::collection::vec(op, 0..30), any::<u64>()).prop_map(move |(p, suite_idx, ring, k, ops, s)| Case {
                 pattern: pats[p].to_string(),
